@@ -66,6 +66,32 @@ func (w *World) roots(v ssa.Value, depth int, seen map[ssa.Value]bool) rootSet {
 	case *ssa.Const:
 		out["const"] = true
 	case *ssa.Parameter:
+		// a helper's parameter, seen from the focus frame, has the origins of the argument at its call site
+		if g := x.Parent(); w.focus != nil && g != w.focus && w.transparent(g) && w.rootsInl[g] == 0 && !w.dynCallable(g) {
+			if sites := w.sitesIn(w.focus, g); len(sites) > 0 {
+				idx := paramIndex(x)
+				var first rootSet
+				same := true
+				for i, s := range sites {
+					args := s.Common().Args
+					if idx < 0 || idx >= len(args) {
+						same = false
+						break
+					}
+					rs := w.roots(args[idx], depth+1, seen)
+					if i == 0 {
+						first = rs
+					} else if strings.Join(first.list(), ",") != strings.Join(rs.list(), ",") {
+						same = false
+					}
+				}
+				if same {
+					return first
+				}
+				out["other:ambiguous-frame"] = true
+				return out
+			}
+		}
 		out["p"+itoa(paramIndex(x))] = true
 	case *ssa.FreeVar:
 		if b := freeVarBinding(x); b != nil {
@@ -236,6 +262,11 @@ func (w *World) rootsCall(v ssa.Value, idx int, depth int, seen map[ssa.Value]bo
 	if callee != nil && w.InRepo(callee) && callee.Blocks != nil {
 		// inline: roots of returned values with parameter substitution
 		args := call.Call.Args
+		if w.rootsInl == nil {
+			w.rootsInl = map[*ssa.Function]int{}
+		}
+		w.rootsInl[callee]++
+		defer func() { w.rootsInl[callee]-- }()
 		for _, r := range returnsOf(callee) {
 			if callee.Recover != nil && r.Block() == callee.Recover {
 				continue
